@@ -9,7 +9,7 @@ Definition bools := [true; false].
 Definition all_gc : list gc :=
   flat_map (fun c => flat_map (fun l => flat_map (fun t => map (fun d => {| g_cur := c; g_link := l; g_t3 := t; g_delay := d |}) bools) bools) bools) (seq 0 9).
 Definition all_ev : list yev :=
-  [YEnable; YDisable; YLinkUp; YLinkDown; YInS1F13 true; YInS1F13 false; YT3; YDelay] ++
+  [YEnable; YDisable; YLinkUp; YLinkDown; YInS1F13 true; YInS1F13 false; YInS1F13Unanswerable; YT3; YDelay] ++
   flat_map (fun c => map (YInS1F14 c) bools) [0; 1] ++ flat_map (fun r => map (YInOther r) bools) bools.
 
 (* reachable shape: one of the five leaf states in use; a timer is armed exactly in its state *)
@@ -43,11 +43,11 @@ Qed.
 (* COMMACK matters only as zero / non-zero *)
 Definition norm (e : yev) : yev := match e with YInS1F14 c r => YInS1F14 (if c =? 0 then 0 else 1) r | x => x end.
 Lemma norm_model s e : gcomm_step s (norm e) = gcomm_step s e.
-Proof. destruct e as [| | | |ac|c r|r w| |]; try reflexivity. cbn [norm gcomm_step]. destruct (c =? 0) eqn:E; [apply Z.eqb_eq in E; subst; reflexivity|reflexivity]. Qed.
+Proof. destruct e as [| | | |ac| |c r|r w| |]; try reflexivity. cbn [norm gcomm_step]. destruct (c =? 0) eqn:E; [apply Z.eqb_eq in E; subst; reflexivity|reflexivity]. Qed.
 Lemma norm_spec a e : e30c_step a (norm e) = e30c_step a e.
-Proof. destruct e as [| | | |ac|c r|r w| |]; try reflexivity. cbn [norm e30c_step]. destruct (c =? 0) eqn:E; [apply Z.eqb_eq in E; subst; reflexivity|reflexivity]. Qed.
+Proof. destruct e as [| | | |ac| |c r|r w| |]; try reflexivity. cbn [norm e30c_step]. destruct (c =? 0) eqn:E; [apply Z.eqb_eq in E; subst; reflexivity|reflexivity]. Qed.
 Lemma norm_in e : In (norm e) all_ev.
-Proof. destruct e as [| | | |ac|c r|r w| |]; cbn [norm]; try (cbn; tauto). - destruct ac; cbn; tauto. - destruct (c =? 0), r; cbn; tauto. - destruct r, w; cbn; tauto. Qed.
+Proof. destruct e as [| | | |ac| |c r|r w| |]; cbn [norm]; try (cbn; tauto). - destruct ac; cbn; tauto. - destruct (c =? 0), r; cbn; tauto. - destruct r, w; cbn; tauto. Qed.
 
 Theorem step_refines s e : good s = true ->
   admitted_c s e (fst (gcomm_step s e)) (snd (gcomm_step s e)) = true /\ good (fst (gcomm_step s e)) = true.
@@ -107,7 +107,7 @@ Lemma flag_table : forallb (fun s => forallb (fun e => forallb (fun f =>
 Proof. vm_compute. reflexivity. Qed.
 
 Lemma exchange_norm s e f : exchange s (norm e) f = exchange s e f.
-Proof. destruct e as [| | | |ac|c r|r w| |]; try reflexivity. cbn [norm exchange]. destruct (c =? 0) eqn:E; [apply Z.eqb_eq in E; subst; reflexivity|reflexivity]. Qed.
+Proof. destruct e as [| | | |ac| |c r|r w| |]; try reflexivity. cbn [norm exchange]. destruct (c =? 0) eqn:E; [apply Z.eqb_eq in E; subst; reflexivity|reflexivity]. Qed.
 
 Theorem established_after_exchange es : forall s f, good s = true -> comm_implies_flag s f = true ->
   comm_implies_flag (fst (run_flag s f es)) (snd (run_flag s f es)) = true.
